@@ -97,8 +97,8 @@ def expected_at(spec, t, idx=None, with_ruby_text=True):
       span = next((i for i in reversed(chain) if idx.get(i) == "span"), None)
       preserve = span is not None and space_of.get(span) == "preserve"
       for ch in txt:
-        if ch == "\n" and preserve:
-          lines.append(cur)      # a preserved line feed is presented as a line break
+        if ch in "\n\r" and preserve:
+          lines.append(cur)      # a preserved line feed (or carriage return: both terminate a line in SRT and WebVTT) is presented as a line break
           cur = []
         else:
           cur.append((ch, span, p))
@@ -240,7 +240,7 @@ def fam_style_items(thorough=False):
   return Product([range(n), range(n), range(n), list(range(n)) if thorough else [0, 1, 4]])
 
 
-TOKENS = ["a&b", "a<b", "a>b", "x-->y", "<b>bold</b>", "&amp;", "a  b", " lead", "trail ", "t\tab", "l1\nl2", "{b}x{/b}", "-->", "&", "<", "1 < 2 & 3 > 2"]
+TOKENS = ["l1\rl2", "l1\r\rl2", "l1\r\n\r\nl2", "a&b", "a<b", "a>b", "x-->y", "<b>bold</b>", "&amp;", "a  b", " lead", "trail ", "t\tab", "l1\nl2", "{b}x{/b}", "-->", "&", "<", "1 < 2 & 3 > 2"]
 
 
 def text_doc(tok, space, twice):
@@ -267,6 +267,15 @@ def split_doc(parts, space):
   kids = [_span(f"s{k}", t, sp=space) for k, t in enumerate(parts)]
   p = node("p", kids, id="p1", b=F(1), e=F(2), sp=space, r="r1")
   return doc_spec(node("body", [node("div", [p], id="d1")], id="b"), [{"id": "r1"}])
+
+
+def blank_doc(si, second):
+  """a paragraph whose only text is preserved white space inside a (possibly styled) span; optionally a second, ordinary one"""
+  sp = node("span", [text("  ")], id="s1", sp="preserve", st=copy.deepcopy(STYLE_MENU[si]))
+  kids = [node("p", [sp], id="p1", b=F(1), e=F(2), sp="preserve", r="r1")]
+  if second:
+    kids.append(node("p", [_span("s2", "two")], id="p2", b=F(3), e=F(4), r="r1"))
+  return doc_spec(node("body", [node("div", kids, id="d1")], id="b"), [{"id": "r1"}])
 
 
 def fam_text_items():
